@@ -49,6 +49,7 @@ for (i, res, scope) in cf['left']:
     why = open(f'{V}/notes/left_{i}.txt').read().strip() if os.path.exists(f'{V}/notes/left_{i}.txt') else scope
     left.append(f"* **{i}** ({'outside the property' if scope else res}): {why}")
 s = s.replace('@LEFT@', "\n".join(left))
+s = s.replace('@FRULES@', open(f'{V}/notes/round_f_rules.md').read().strip())
 s = s.replace('@BGEN@', open(f'{V}/notes/round_t_generalisations.md').read().strip())
 for k in ('@BSILENT@', '@BLEFT@', '@NUMBERS@'):
     p = f'{V}/notes/ph_{k.strip("@")}.txt'
